@@ -127,12 +127,14 @@ func ratOf(v float64) F {
 }
 
 func simplestRat(v float64, rel float64) (int, int, bool) {
-	if v == 0 {
+	// float results of exact-rational arithmetic are off by ~1e-16 times the magnitude of the OPERANDS (e.g. 2 % (2/3) = 2.2e-16):
+	// below 1e-12 a value is zero, and the tolerance never drops below 1e-12
+	if math.Abs(v) < 1e-12 {
 		return 0, 1, true
 	}
 	neg := v < 0
 	x := math.Abs(v)
-	tol := x * rel
+	tol := math.Max(x*rel, 1e-12)
 	// continued fraction expansion with big ints guarded by 31-bit limits
 	h0, h1 := big.NewInt(0), big.NewInt(1)
 	k0, k1 := big.NewInt(1), big.NewInt(0)
